@@ -400,12 +400,24 @@ def comparator_model(ctx, rule):
     from engine.absint import Interp, Obj, Unsupported
     from engine.loader import AnalysisError
     x, y, z = Obj("x"), Obj("y"), Obj("z")
+
+    class ListProxyLike(list):
+        """A list subclass (what `Selector.objects` hands out; the `old` of a wholesale replacement event)."""
+
+    class OrderedDictLike(dict):
+        """A dict subclass."""
     cases = {
         "compare_iterator": [
+            # a list subclass and a plain list of the same elements are different values (replacing a dict-declared Selector's
+            # objects by a plain list of the same objects drops the labels: its watchers must hear about it)
+            (ListProxyLike([x, y]), [x, y], False), ([x, y], ListProxyLike([x, y]), False), (ListProxyLike([x, y]), ListProxyLike([x, y]), True),
             ([x, y], [x, y], True), ([x, y], [x, z], False), ([x, y], [z, y], False), ([x], [x, y], False), ([x, y], [x], False),
             ([x, y], (x, y), False), ([], [], True), ((x, y), (x, y), True), ([x, y], [y, x], False), ([None, x], [None, x], True), ([None], [x], False),
         ],
         "compare_mapping": [
+            # the same keys in another insertion order, values matching position by position but not key by key
+            ({"lo": x, "hi": y}, {"hi": x, "lo": y}, False), ({"lo": x, "hi": y}, {"hi": y, "lo": x}, True),
+            (OrderedDictLike({"a": x}), {"a": x}, False),
             ({"a": x, "b": y}, {"a": x, "b": y}, True), ({"a": x, "b": y}, {"b": y, "a": x}, True), ({"a": x, "b": y}, {"a": x, "b": z}, False),
             ({"a": x, "b": y}, {"a": x, "c": y}, False), ({"a": x, "b": y}, {"c": x, "d": y}, False), ({"a": x}, {"a": x, "b": y}, False),
             ({"a": x, "b": y}, {"a": x}, False), ({}, {}, True), ({"a": x}, {"b": x}, False),
@@ -419,12 +431,15 @@ def comparator_model(ctx, rule):
             return args[0] is args[1]
         if fn == "type" and len(args) == 1:
             return type(args[0]).__name__
+        if fn == "isinstance" and len(args) == 2 and isinstance(args[1], str) and isinstance(args[0], (list, tuple, dict)):
+            # the second argument is a type as the `type` hook above names it
+            return args[1] in [c.__name__ for c in type(args[0]).__mro__]
         return NotImplemented
     for m, cs in cases.items():
         g = ctx.repo.method(P + "Comparator", m)
         bad = []
         for o1, o2, want in cs:
-            it = Interp(ctx.hier, call_hook=hook, strict_self_calls=True)
+            it = Interp(ctx.hier, dyn=P + "Comparator", inline=lambda mm: mm != "is_equal", call_hook=hook, strict_self_calls=True)
             try:
                 outs = it.run_all(g, {g.params[0]: Obj("Comparator"), g.params[1]: o1, g.params[2]: o2})
             except Unsupported as e:
@@ -436,8 +451,8 @@ def comparator_model(ctx, rule):
                 bad.append((o1, o2, outs[0].value, want))
         if bad:
             o1, o2, got, want = bad[0]
-            ctx.fail(rule, g, g.node, "Comparator.%s(%r, %r) answers %s, specification %s: %s" % (
-                m, o1, o2, got, want, "a genuine change is reported as no change, so changes-only watchers (and every reactive expression downstream) are not notified" if got
+            ctx.fail(rule, g, g.node, "Comparator.%s(%s %r, %s %r) answers %s, specification %s: %s" % (
+                m, type(o1).__name__, o1, type(o2).__name__, o2, got, want, "a genuine change is reported as no change, so changes-only watchers (and every reactive expression downstream) are not notified" if got
                 else "equal values are reported as a change"), key="%s::comparer-model::%s" % (g.qualname, "false-equal" if got else "false-change"),
                 input="p.d = {'a': 1, 'b': 2}; p.d = {'a': 1, 'c': 2} -> no event")
         else:
